@@ -128,8 +128,10 @@ def legacygenRun (toks : List String) : Option String :=
     let fuel ← fuel.toNat?
     let reads ← lgParseReads reads
     let writes ← lgParseWrites writes
-    let cp ← lgParseComports cp
-    let w : World NoObj := { obj := NoObj.mk, port := ⟨reads, writes, [], 0⟩, ext := { comports := cp } }
+    -- a leading `!` on the comports token: `serial.Serial(...)` fails to open (raises SerialException)
+    let openOk := !cp.startsWith "!"
+    let cp ← lgParseComports (if openOk then cp else (cp.drop 1).toString)
+    let w : World NoObj := { obj := NoObj.mk, port := ⟨reads, writes, [], 0⟩, ext := { comports := cp, openOk := openOk } }
     pure (" | ".intercalate (lgRunCalls fuel calls w))
   | _ => none
 
